@@ -160,7 +160,8 @@ def o_reader(case):
             continue
         f = framing.build_frame(bytes([n >> 4, (n & 0xF) << 4]) + tail_for(n, 0, 1, 1 + n % 5))
         good.append((n, f))
-        stream += bytes(bad) + f
+        # (for every other number the damaged frame comes twice in a row: a rejected frame and its immediate repeat)
+        stream += bytes(bad) * (1 + n % 2) + f
         # the bare number (a two-byte payload, the shortest that carries an identity) and a frame whose checksum
         # trailer reads CR LF (the three payload bytes in front of it are solved for)
         f2 = framing.build_frame(bytes([n >> 4, (n & 0xF) << 4 | (n % 16)]))
@@ -168,7 +169,7 @@ def o_reader(case):
         good += [(n, f2), (n, f3)]
         # a frame with a one-byte payload (rejected: too short to carry a number) right in front: whatever its checksum
         # bytes look like, the frames behind it are not touched
-        stream += framing.build_frame(bytes([n % 256])) + f2 + f3
+        stream += framing.build_frame(bytes([n % 256])) * (1 + (n // 2) % 2) + f2 + f3
     with diagnostics(bool(case.get("diag"))):
         try:
             got = list(RTCMReader(io.BytesIO(bytes(stream)), quitonerror=case["qoe"]))
